@@ -29,6 +29,19 @@
     * HISTORY (several analyses in one process; multi-file programs = roots ⊂ keys):
       `C05_cex_history_carried_import_ir` (IRs of a followed import surviving into the next analysis
       change its results), `C05_tree_history_independent` (+ `_ok`): in the tree fragment they do not.
+    * RE-EXPORTED CALLEES (round 4; `Resolve.resolveImport`, the model of `resolve_import`, tied to the real
+      `find_call_target_and_ir` by the op `c05_reexport`: three rounds of queries per project): the answer is a
+      function of the module tables and the symbol — `tieA_resolver_has_no_process_memory` pins that the code has
+      no other input (no mutable default, no extra parameter, no global) — and of the lookups along the chain of
+      re-export links only: `C05_reexport_answer_depends_on_chain_only`, hence
+      `C05_reexport_definition_order_independent` (any order of the definitions of the followed modules),
+      `C05_reexport_unrelated_definition` (a definition inserted into a followed module under a name not on the
+      chain), `C05_reexport_recursion_depth_independent` (a link resolved inside another resolution or on its own);
+      `C05_cex_resolver_with_process_memory`: what a memory outliving the call would do (not the pinned code).
+    * MODULE SEARCH (`Locator.locate`, op `c05_first_dir`): `tieA_search_path_is_a_sequence` (no hash-ordered
+      container between `sys.path` and `locations[0]`), `C05_first_search_directory_decides`,
+      `C05_later_search_directories_unrelated`, `C05_cex_search_directory_order_decides` (the ORDER of the
+      directories is what the answer depends on: it must not come out of a set).
 -/
 import RattrProofs.Lemmas.Results
 import RattrProofs.Lemmas.ResultsCex
@@ -37,6 +50,8 @@ import RattrProofs.Lemmas.ResultsTree
 import RattrProofs.Lemmas.ResultsTreeCheck
 import RattrProofs.Lemmas.FileOrder
 import RattrProofs.Lemmas.VisitHide
+import RattrProofs.Lemmas.C05Reexport
+import RattrModel.Generated.C05
 
 namespace Rattr.C05
 open Rattr Rattr.Results Rattr.Cex
@@ -567,5 +582,180 @@ theorem C05_cex_static_method_through_parameter :
              (s "cb.go", goSym)]] (prm ["cb", "v"])
       [.ret [.call (.attr (nmL "cb") (s "go") .load) [nmL "v"] [] []]] = [(s "cb.go", some goSym)] := by
   refine ⟨?_, ?_⟩ <;> decide +kernel
+
+/-! ### Re-exported callees: `resolve_import` asked more than once (round 4) -/
+
+section Reexport
+open Rattr.Resolve Rattr.C05R
+
+/-- Tie A: `resolve_import` / `find_call_target_and_ir` take the symbol and the environment and nothing
+else — no parameter with a default (a mutable default is a per-process memory), the recursive call
+passes `environment` only, no `global` / `nonlocal`, no module-level container, no cache decorator;
+and no function of rattr/results or rattr/module_locator has a mutable default.  This is what makes the
+pure function `Resolve.resolveImport` a model of EVERY call, the second one included. -/
+theorem tieA_resolver_has_no_process_memory :
+    Generated.C05.mutableDefaults = [] ∧
+    Generated.C05.resolveImportParams = ["target", "environment"] ∧
+    Generated.C05.resolveImportDefaults = 0 ∧
+    Generated.C05.findCallTargetParams = ["call", "environment"] ∧
+    Generated.C05.resolveImportRecursiveCalls = [["positional:1", "environment"]] ∧
+    Generated.C05.resolverGlobalStatements = [] ∧
+    Generated.C05.resolverModuleLevelContainers = [] ∧
+    Generated.C05.resolveImportIsCached = false := by decide
+
+/-- Tie A: from `sys.path` to `locations[0]` the search directories travel in sequences only (no set /
+dict / frozenset literal, comprehension or constructor in `iter_python_path_dirs`,
+`locate_module_in_python_path`, `find_module_in_path`, `derive_working_dir`, `find_module_spec_fast`):
+the list order the model `Locator.locate` is given is the order of `sys.path`, under every hash seed. -/
+theorem tieA_search_path_is_a_sequence :
+    Generated.C05.searchFunctionsMissing = [] ∧ Generated.C05.searchPathHashOrdered = [] := by decide
+
+/-- The answer of `resolve_import` is a function of the lookups along the chain of re-export links:
+two module tables with the same modules that agree on the (module, local name) pairs of the chain give
+the same answer, whatever else differs (other definitions, their order, other modules' contents). -/
+theorem C05_reexport_answer_depends_on_chain_only (w w' : World) (hs : SameModules w w')
+    (fuel : Nat) (t : ISym) (h : ∀ p ∈ chain w fuel t, AgreeAt w w' p.1 p.2) :
+    resolveImport w' fuel t = resolveImport w fuel t :=
+  resolveImport_congr w w' hs fuel t h
+
+/-- DEFINITION ORDER in the followed modules: every module's symbol table permuted (keys pairwise
+distinct, as in a real symbol table) — every re-exported callee resolves the same. -/
+theorem C05_reexport_definition_order_independent (w w' : World) (hs : SameModules w w')
+    (hp : ∀ mn c c', Dict.get? w.irs mn = some c → Dict.get? w'.irs mn = some c' →
+      c.Perm c' ∧ (c.map MSym.key).Nodup)
+    (fuel : Nat) (t : ISym) : resolveImport w' fuel t = resolveImport w fuel t := by
+  apply resolveImport_congr w w' hs
+  intro p _
+  unfold AgreeAt
+  have hm := hs.2.2 p.1
+  cases hc : Dict.get? w.irs p.1 with
+  | none =>
+    cases hc' : Dict.get? w'.irs p.1 with
+    | none => trivial
+    | some c' => rw [hc, hc'] at hm; cases hm
+  | some c =>
+    cases hc' : Dict.get? w'.irs p.1 with
+    | none => rw [hc, hc'] at hm; cases hm
+    | some c' =>
+      obtain ⟨hperm, hnd⟩ := hp p.1 c c' hc hc'
+      exact lookupSym_perm hperm hnd p.2
+
+/-- UNRELATED DEFINITION in a followed (re-exporting or defining) module `m`: a symbol `s` inserted
+anywhere into its table, every other module untouched — a re-exported callee whose chain does not look
+up `s`'s name in `m` resolves the same. -/
+theorem C05_reexport_unrelated_definition (w w' : World) (hs : SameModules w w')
+    (m : Str) (a b : MCtx) (s : MSym)
+    (hm : Dict.get? w.irs m = some (a ++ b)) (hm' : Dict.get? w'.irs m = some (a ++ s :: b))
+    (hother : ∀ mn, mn ≠ m → Dict.get? w'.irs mn = Dict.get? w.irs mn)
+    (fuel : Nat) (t : ISym) (hfresh : (m, s.key) ∉ chain w fuel t) :
+    resolveImport w' fuel t = resolveImport w fuel t := by
+  apply resolveImport_congr w w' hs
+  intro p hp
+  unfold AgreeAt
+  by_cases hpm : p.1 = m
+  · rw [hpm, hm, hm']
+    simp only
+    have hk : s.key ≠ p.2 := by
+      intro e
+      apply hfresh
+      have : p = (m, s.key) := by
+        cases p
+        simp only at hpm e
+        rw [hpm, e]
+      rw [← this]
+      exact hp
+    exact (lookupSym_insert_other a b s p.2 hk).symm
+  · rw [hother p.1 hpm]
+    cases Dict.get? w.irs p.1 <;> simp
+
+/-- a link resolved inside another resolution (less recursion budget left) or on its own: the same
+answer, as soon as the budget suffices at all. -/
+theorem C05_reexport_recursion_depth_independent (w : World) (n k : Nat) (t : ISym)
+    (h : resolveImport w n t ≠ .recursionError) : resolveImport w (n + k) t = resolveImport w n t :=
+  resolveImport_fuel_mono w n t h k
+
+/-- `target.py: from pkg import area` / `pkg/__init__.py: from pkg.impl import area` / `pkg/impl.py:
+def area, def unrelated`: the hypotheses of the theorems above on a concrete project. -/
+def wDemo (impl : MCtx) : World :=
+  { existing := [s "pkg", s "pkg.impl"], ignored := [],
+    irs := [(s "pkg", [.imp (s "area") (s "pkg.impl.area")]), (s "pkg.impl", impl)] }
+
+example : resolveImport (wDemo [.func (s "area") true, .func (s "other") true]) 8 ⟨s "area", s "pkg.area"⟩
+    = .found (s "pkg.impl") (.func (s "area") true) := by decide +kernel
+example : chain (wDemo [.func (s "area") true, .func (s "other") true]) 8 ⟨s "area", s "pkg.area"⟩
+    = [(s "pkg", s "area"), (s "pkg.impl", s "area")] := by decide +kernel
+theorem wDemo_get (impl : MCtx) (mn : Str) :
+    Dict.get? (wDemo impl).irs mn =
+      if s "pkg" = mn then some [.imp (s "area") (s "pkg.impl.area")] else if s "pkg.impl" = mn then some impl else none := by
+  simp only [wDemo, Dict.get?]
+
+example : resolveImport (wDemo [.func (s "other") true, .func (s "area") true]) 8 ⟨s "area", s "pkg.area"⟩
+    = resolveImport (wDemo [.func (s "area") true, .func (s "other") true]) 8 ⟨s "area", s "pkg.area"⟩ :=
+  C05_reexport_definition_order_independent (wDemo [.func (s "area") true, .func (s "other") true])
+    (wDemo [.func (s "other") true, .func (s "area") true])
+    ⟨rfl, rfl, by intro mn; simp only [wDemo_get]; split <;> (try rfl); split <;> rfl⟩
+    (by
+      intro mn c c' h h'
+      rw [wDemo_get] at h h'
+      by_cases h1 : s "pkg" = mn
+      · rw [if_pos h1] at h h'
+        cases h; cases h'
+        exact ⟨List.Perm.refl _, by decide +kernel⟩
+      · rw [if_neg h1] at h h'
+        by_cases h2 : s "pkg.impl" = mn
+        · rw [if_pos h2] at h h'
+          cases h; cases h'
+          exact ⟨List.Perm.swap .., by decide +kernel⟩
+        · rw [if_neg h2] at h
+          cases h) 8 _
+
+/-- WHY Tie A pins the resolver's interface: with a memory that outlives the call (`resolveImportMem`,
+not the pinned code) two functions calling the same re-exported name get different answers — the
+first resolves, the second does not — so swapping the two definitions, removing the first (unrelated)
+one, or generating the results a second time changes a function's results; the pinned resolver
+(`resolveImport`, no memory) answers every query of the sequence alike. -/
+theorem C05_cex_resolver_with_process_memory :
+    let w := wDemo [.func (s "area") true]
+    let q : ISym := ⟨s "area", s "pkg.area"⟩
+    runMem w 8 [] [q, q] = [.found (s "pkg.impl") (.func (s "area") true), .none_ .likelyUndefined] ∧
+    [q, q].map (resolveImport w 8) = [.found (s "pkg.impl") (.func (s "area") true), .found (s "pkg.impl") (.func (s "area") true)] := by
+  decide +kernel
+
+end Reexport
+
+/-! ### One module name in several search directories (round 4) -/
+
+section Search
+open Rattr.Locator Rattr.C05R
+
+/-- `find_module_spec_fast` takes the FIRST search directory that has the module (directories before it
+that do not have it are skipped). -/
+theorem C05_first_search_directory_decides (pre : FS) (f : Files) (rest : FS) (name : Dotted) (p : Path)
+    (hpre : ∀ g ∈ pre, findModuleInPath g name = none) (hf : findModuleInPath f name = some p) :
+    (locate (pre ++ f :: rest) name).head? = some (pre.length, p) :=
+  locate_head pre f rest name p hpre hf
+
+/-- … so what the LATER search directories hold (a vendored / installed module of the same name, with
+whatever contents) is unrelated. -/
+theorem C05_later_search_directories_unrelated (pre : FS) (f : Files) (rest rest' : FS) (name : Dotted) (p : Path)
+    (hpre : ∀ g ∈ pre, findModuleInPath g name = none) (hf : findModuleInPath f name = some p) :
+    (locate (pre ++ f :: rest) name).head? = (locate (pre ++ f :: rest') name).head? := by
+  rw [locate_head pre f rest name p hpre hf, locate_head pre f rest' name p hpre hf]
+
+/-- The ORDER of the search directories is what decides (a project with `helpers.py` and a vendored
+package `helpers/`): the same two directories in the other order give the other file.  An order taken
+from a set would make the followed file depend on the hash seed (`tieA_search_path_is_a_sequence`). -/
+theorem C05_cex_search_directory_order_decides :
+    let project : Files := [["helpers.py".toList], ["target.py".toList]]
+    let vendor : Files := [["helpers".toList, "__init__.py".toList]]
+    (locate [project, [], vendor] ["helpers".toList]).head? = some (0, ["helpers.py".toList]) ∧
+    (locate [vendor, [], project] ["helpers".toList]).head? = some (0, ["helpers".toList, "__init__.py".toList]) := by
+  decide +kernel
+
+example : (locate [[], [["helpers.py".toList]], [["helpers.py".toList]]] ["helpers".toList]).head?
+    = some (1, ["helpers.py".toList]) :=
+  C05_first_search_directory_decides [[]] _ _ _ _ (by decide +kernel) (by decide +kernel)
+
+end Search
 
 end Rattr.C05
